@@ -69,6 +69,9 @@ def scenarios(draw):
         # gene symbols in lower case (they sort after IsoQuant's own "novel_gene_..." ids)
         for i, g in enumerate(sc["genes"]):
             g["id"] = src.choice(["sox", "tp", "abc", "zfp", "pax"]) + str(i + 1)
+    if annotated and src.bool(0.15):
+        # a reference transcript with an exon of a single base (valid, rare): start == end
+        S.add_tail_gene(src, sc, "gone", [src.int(150, 300), 1, src.int(150, 300)], [src.int(300, 600), src.int(300, 600)])
     if annotated and src.bool(0.35):
         sc["gtf"]["cds"] = True            # CDS records inside the exons, as in every real annotation
     sc["opts"] = common_opts(src, annotated)
